@@ -59,7 +59,9 @@ def instances(ck):
         if n >= 1:
             charges += [("list", vecs[-1][:n - 1]), ("list", vecs[-1] + [True, True])]
         for j, (mode, ch) in enumerate(charges):
-            arg = None if mode == "none" else [bool(x) for x in ch]
+            # a charge is whatever is true: booleans, 0/1, and other numbers (documented: cast with bool())
+            arg = None if mode == "none" else [bool(x) for x in ch] if j % 3 == 0 else \
+                [int(x) for x in ch] if j % 3 == 1 else [(3 if k % 2 else 2) if x else 0 for k, x in enumerate(ch)]
             for cls in ((None, OPB) if len(e) <= 3 else (None,)):
                 add("tseitin-%d-%s-%d" % (n, gen.gid(e), j), "tseitin",
                     {"chmode": mode, "ch": ch},
